@@ -37,6 +37,9 @@ CHECKS = {
  "C15": ("bounded-exhaustive enumeration of timestamp field products, instant pairs/triples, duration strings and sleep configurations against an integer civil-date model",
          "full product of RFC 3339 field alphabets plus one-dimensional sweeps (every offset, every leap day, every month x day), all pairs and triples of an instant subset, all duration strings of <=2 components, every (duration, :max, ceiling, context) sleep combination; expected values from an independent recogniser and days-from-civil integer arithmetic",
          "no expected value comes from Go's time package; refusals are recognised with a 2 s watchdog on >= 59 min sleeps (1700x margin)"),
+ "C18": ("bounded-exhaustive enumeration of failing programs (error kind x context nesting x layout) against a reference interpreter that carries source positions and the active-call chain",
+         "every error kind (unbound symbol, error, type error, arity, error inside a called function, failing macro-template form, failing macro-built form, set! of an unbound name, tail and non-tail recursion ending in an error) at every position of every nesting up to the depth bound over 25 contexts, in 3 source layouts; the real error's location must be the position of the form the reference blames and lie in the source; the stack trace with elimination off must equal the reference's active-call chain (names and call-site positions), with elimination on it must be equal unless a function is re-entered, in which case an order-preserving subsequence keeping the outermost frame and all non-tail frames; also through rethrow",
+         "call-site positions of handler invocations are unspecified (no call expression); anonymous functions are compared by position only"),
  "C19": ("bounded-exhaustive enumeration of call tables against the real evaluator's binder",
          "complete tables: core-registry name x argument count, user signature shape x argument list (defun and defmacro), shadowing template x call placement x name; each linted the way `elps lint --workspace` does and evaluated by the real interpreter",
          "a run-time failure is classified as 'argument binding failed at that call' by error-text prefix plus innermost frame; <=2 required/optional/key parameters, argument lists <=6"),
